@@ -44,6 +44,16 @@ class C11(Prop):
                 M = [[0.5 * (M[i][j] + M[j][i]) for j in range(3)] for i in range(3)]
                 yield {'kind': 'angles', 'phase': rng.choice(['P', 'SH', 'SV', 'p', 'PQ', 'SHQ', 'svq', 'Sh']), 'radians': rad,
                        'pts': pts, 'M': M, 'psi': rng.uniform(-360, 360)}
+            elif rng.random() < 0.12:
+                # a ratio phase returns the coefficient rows of numerator and denominator, in degrees or radians
+                rad = rng.random() < 0.5
+                pts = []
+                for _ in range(rng.randint(1, 5)):
+                    az, toa = rng.uniform(-360, 720), rng.uniform(0, 180)
+                    if rad:
+                        az, toa = az * math.pi / 180, toa * math.pi / 180
+                    pts.append([az, toa])
+                yield {'kind': 'angles-ratio', 'phase': rng.choice(['P/SH', 'P/SV', 'SH/SV', 'PQ/SHQ', 'SH/P', 'sv/p']), 'radians': rad, 'pts': pts}
             else:
                 which = rng.choice(['pol', 'pp', 'ar'])
                 ev = dg.gen_event(rng, want_pol={'pol': 'pol', 'pp': 'pp', 'ar': 'none'}[which], want_ar=(which == 'ar'))
@@ -61,6 +71,12 @@ class C11(Prop):
             st2 = {'Azimuth': st['Azimuth'] + psi, 'TakeOffAngle': st['TakeOffAngle']}
             out['rot'] = [flat(r, np) for r in np.asarray(inv.station_angles(st2, case['phase'], radians=case['radians']))]
             return out
+        if k == 'angles-ratio':
+            st = {'Azimuth': np.matrix([[p[0]] for p in case['pts']]), 'TakeOffAngle': np.matrix([[p[1]] for p in case['pts']])}
+            pair = inv.station_angles(st, case['phase'], radians=case['radians'])
+            num, den = case['phase'].split('/')
+            return {'pair': [[flat(r, np) for r in np.asarray(a)] for a in pair],
+                    'single': [[flat(r, np) for r in np.asarray(inv.station_angles(st, ph, radians=case['radians']))] for ph in (num, den)]}
         data, loc = dg.to_mtfit(case['event'], np)
         if k == 'polmatrix':
             a, err, ipp = inv.polarity_matrix(data, loc)
@@ -90,6 +106,9 @@ class C11(Prop):
         if k == 'angles':
             toks = ' '.join('%s %s' % (bits(a), bits(t)) for a, t in case['pts'])
             return ['stationangles %s %d %d %s' % (case['phase'], 1 if case['radians'] else 0, len(case['pts']), toks)]
+        if k == 'angles-ratio':
+            toks = ' '.join('%s %s' % (bits(a), bits(t)) for a, t in case['pts'])
+            return ['stationangles %s %d %d %s' % (ph, 1 if case['radians'] else 0, len(case['pts']), toks) for ph in case['phase'].split('/')]
         op = {'polmatrix': 'polmatrix', 'ppmatrix': 'polprobmatrix', 'armatrix': 'armatrix'}[k]
         return ['%s %s %s' % (op, ' '.join(dg.encode_data(case['event'])), ' '.join(dg.encode_loc(case['event'])))]
 
@@ -129,6 +148,13 @@ class C11(Prop):
         if 'shape_error' in impl:
             return [('implementation output is inconsistent: ' + impl['shape_error'], None)]
         k = case['kind']
+        if k == 'angles-ratio':
+            for j, rep in enumerate(replies):
+                model = reply_floats(rep)
+                got = [v for r in impl['pair'][j] for v in r] if j < len(impl['pair']) else []
+                if model is None or len(model) != len(got) or not all(close(m, g, atol=1e-12) for m, g in zip(model, got)):
+                    return [('station_angles(%s)[%d]: model %r, implementation %r' % (case['phase'], j, (model or [])[:6], got[:6]), None)]
+            return []
         if k == 'angles':
             model = reply_floats(replies[0])
             if model is None:
@@ -177,6 +203,17 @@ class C11(Prop):
             return [('raises', '%s raised %s: %s' % (case['kind'], impl['exc'], impl.get('msg')), impl)]
         k = case['kind']
         out = []
+        if k == 'angles-ratio':
+            if len(impl['pair']) != 2:
+                return [('radiation', 'a ratio phase returned %d coefficient arrays' % len(impl['pair']), None)]
+            for j in range(2):
+                a = [v for r in impl['pair'][j] for v in r]
+                b = [v for r in impl['single'][j] for v in r]
+                if len(a) != len(b) or not all(close(x, y, atol=1e-12) for x, y in zip(a, b)):
+                    out.append(('radiation', 'station_angles(%r, radians=%r): coefficients of %s differ from those of the single phase (%r vs %r)' %
+                                (case['phase'], case['radians'], 'numerator' if j == 0 else 'denominator', a[:6], b[:6]), None))
+                    break
+            return out
         if k == 'angles':
             ph = case['phase'].lower().rstrip('q')
             M = case['M']
@@ -210,7 +247,7 @@ class C11(Prop):
         return out
 
     def nontrivial(self, case, impl):
-        if case['kind'] == 'angles':
+        if case['kind'] in ('angles', 'angles-ratio'):
             return True
         ev = case['event']
         return ev['loc'] is not None or any(len(r) > 1 for r in ev['types'].values())
@@ -219,6 +256,8 @@ class C11(Prop):
         k = case['kind']
         if k == 'angles':
             return 'angles/%s/%s' % (case['phase'].lower().rstrip('q'), 'rad' if case['radians'] else 'deg')
+        if k == 'angles-ratio':
+            return 'angles-ratio/%s' % ('rad' if case['radians'] else 'deg')
         ev = case['event']
         return '%s/%dtypes/%s' % (k, len(ev['types']), 'loc' if ev['loc'] else 'noloc')
 
